@@ -1,7 +1,7 @@
 (* C02 - Round trip: what the safe dumpers write, the safe loaders read back.   ONLY statements + `exact lemma`. *)
 From Coq Require Import List NArith ZArith Bool Arith String.
 Import ListNotations.
-Require Import Scan Pos DQ.
+Require Import Scan Pos DQ SQ.
 
 (* KIND C02_double_quoted_scalar_roundtrip : U *)
 (* for EVERY text t over printable ASCII (spaces, apostrophes included), the 15 single-letter escapes and \xHH code points,
@@ -13,6 +13,16 @@ Theorem C02_double_quoted_scalar_roundtrip : forall t tail s,
 Proof. exact dq_roundtrip. Qed.
 Eval vm_compute in "ASSUME:C02_double_quoted_scalar_roundtrip"%string. Print Assumptions C02_double_quoted_scalar_roundtrip.
 
-(* PARTIAL (FULL: forall v opts, load (dump v opts) ~ v): only the double-quoted scalar layer (the universal fallback style)
+(* KIND C02_single_quoted_scalar_roundtrip : U *)
+(* for EVERY text t over printable ASCII (spaces, apostrophes, double quotes and backslashes included) and every scanner state whose
+   buffer is  ' body1(t) ' z tail  with z not an apostrophe (body1 = every apostrophe doubled, as write_single_quoted does; no
+   fold): scan_flow_scalar returns a single-quoted scalar token whose value is exactly t and leaves the buffer at z tail *)
+Theorem C02_single_quoted_scalar_roundtrip : forall t z tail s,
+  forallb raw1 t = true -> z <> 39%N -> rest s = (39%N :: body1 t ++ 39%N :: z :: tail)%list ->
+  exists tok s', scan_flow_scalar false s = Ok (tok, s') /\ t_kind tok = TScalar t false SSingle /\ rest s' = (z :: tail)%list.
+Proof. exact sq_roundtrip. Qed.
+Eval vm_compute in "ASSUME:C02_single_quoted_scalar_roundtrip"%string. Print Assumptions C02_single_quoted_scalar_roundtrip.
+
+(* PARTIAL (FULL: forall v opts, load (dump v opts) ~ v): only the double-quoted (the universal fallback style) and single-quoted scalar layers
    without folding is a theorem.  Value<->node, node<->event and the other four scalar styles are decided by the
    represent/serialize/emit/scan/parse/compose/construct correspondence and the direct round-trip run. *)
